@@ -8,7 +8,7 @@ export CARGO_NET_OFFLINE=true
 P="$WT/seeded/$M.patch"
 [ -f "$P" ] || { echo "no $P"; exit 2; }
 cd "$WT" || exit 2
-git checkout -q -- . ; rm -f tests/seeded_demo.rs
+git checkout -q -- . ; git clean -fdq -- src tests ; rm -f tests/seeded_demo.rs
 DEMO=""
 for ext in rs sh; do [ -f "seeded/${M}_demo.$ext" ] && DEMO="seeded/${M}_demo.$ext"; done
 run_demo() {
@@ -26,7 +26,7 @@ cargo test --workspace --no-fail-fast --offline >/dev/shm/suite.$$.log 2>&1; S1=
 grep -E '^test result' /dev/shm/suite.$$.log | tr '\n' ' '; echo "   exit $S1"
 echo "== demo WITH change (must fail)"
 run_demo; D1=$?; echo "   exit $D1"; tail -n 5 /dev/shm/demo.$$.log | sed 's/^/      /'
-git checkout -q -- .
+git checkout -q -- . ; git clean -fdq -- src tests
 echo "SUMMARY wt-confirm: demo_without=$D0 suite_with=$S1 demo_with=$D1"
 echo "== applying to /repo and running checks"
 cd /repo || exit 2
@@ -42,6 +42,6 @@ for C in "$PROP" "$@"; do
     grep -E '^  signature|HARNESS' /dev/shm/chk.$$.log | sort | uniq -c | head -8
   fi
 done
-git checkout -q -- .
+git checkout -q -- . ; git clean -fdq -- src tests
 find /verif/replays -name '*.json' -delete
 rm -f /dev/shm/*.$$.log
